@@ -49,7 +49,7 @@ impl BlockHeader {
             let h = &prev_headers[prev_headers.len() - min(prev_headers.len(), 11)..];
             let mut timestamps: Vec<u32> = h.iter().map(|x| x.timestamp).collect();
             timestamps.sort();
-            if self.timestamp < timestamps[timestamps.len() / 2] {
+            if self.timestamp <= timestamps[timestamps.len() / 2] {
                 let msg = format!("Timestamp is too old: {}", self.timestamp);
                 return Err(ChainGangError::BadData(msg));
             }
